@@ -330,6 +330,48 @@ _base_check_c18 = check
 def check(ctx):            # noqa: F811  (extends the rules above)
     _base_check_c18(ctx)
     exact(ctx, ctx.prog)
+    periphery(ctx, ctx.prog)
+
+
+def periphery(ctx, prog):
+    """what the reconciliation relies on outside BlobManager.setup: the blob objects it builds, the one shared completed set, the stream recovery pass"""
+    import ast
+    from ..astutil import dotted, unparse
+    from .. import rules as R
+    # a blob file found on disk becomes a verified object WITH a length (a row without a length is silently not inserted): C01's adoption rules
+    R.share(ctx, "C01", {"C01-D6/DEP": "C18-D7/DEP", "C01-D2/GATE": "C18-D7/GATE", "C01-D2/WRITERS": "C18-D7/WRITERS"})
+    # ONE set object: BlobManager.__init__ hands `completed_blob_hashes` to the DHT data store; re-binding the attribute later leaves the store with the
+    # old set (it keeps reporting blobs whose files are gone).  The set is emptied / filled in place only.
+    BM = "lbry.blob.blob_manager.BlobManager"
+    R.writers_only(ctx, "C18-D7/WRITERS", "completed_blob_hashes", [f"{BM}.__init__", "lbry.dht.protocol.data_store.DictDataStore.__init__", "lbry.dht.node.Node.__init__",
+                                                                     "lbry.dht.protocol.protocol.KademliaProtocol.__init__", "lbry.dht.protocol.protocol.KademliaRPC.__init__"],
+                   "the completed set is bound once", floor=1, kinds=("assign", "augassign", "delete"))
+    st = ctx.fa(f"{BM}.stop")
+    cl = st.calls(dotted_name="self.completed_blob_hashes.clear")
+    ctx.ob("C18-D7/DEP", bool(cl) and all(id(R.stmt_of(c)) in {id(x) for x in st.fi.node.body} for c in cl), st.site(), "stop() empties the completed set in place, unconditionally", func=st.fi.qualname,
+           key=f"C18-D7/DEP|{BM}.stop|clear")
+    # stream recovery re-creates blob rows as pending; every hash whose file may be present — the rebuilt sd blob and all content blobs — is re-checked
+    rs = ctx.fa("lbry.stream.stream_manager.StreamManager.recover_streams.<locals>.recover_stream")
+    ex = [c for c in rs.calls(name="extend") if dotted(c.func.value) == "to_check"]
+    ctx.floor("C18-D7/DEP", "hashes queued for the completed-status check", len(ex), 1, site=rs.site(), func=rs.fi.qualname)
+    for c in ex:
+        t = unparse(c.args[0]) if c.args else ""
+        ok = "sd_blob.blob_hash" in [unparse(x) for x in ast.walk(c.args[0]) if isinstance(x, ast.Attribute)] and \
+            any(isinstance(x, (ast.ListComp, ast.GeneratorExp)) and unparse(x.generators[0].iter) == "descriptor.blobs[:-1]" and unparse(x.elt) == f"{unparse(x.generators[0].target)}.blob_hash"
+                and not x.generators[0].ifs for x in ast.walk(c.args[0]))
+        ctx.ob("C18-D7/DEP", ok, rs.site(c), "queued: the sd blob's hash and the hash of every content blob (all but the terminator), unfiltered", detail="" if ok else t, func=rs.fi.qualname,
+               key="C18-D7/DEP|recover_stream|to_check")
+        R.exact_gate(ctx, "C18-D7/GATE", rs, c, "descriptor", "…for every stream whose descriptor could be rebuilt", key="C18-D7/GATE|recover_stream|to_check")
+    outer = ctx.fa("lbry.stream.stream_manager.StreamManager.recover_streams")
+    en = outer.calls(name="ensure_completed_blobs_status")
+    ok = len(en) == 1 and len(en[0].args) == 1 and dotted(en[0].args[0]) == "to_check"
+    ctx.ob("C18-D7/DEP", ok, outer.site(), "the queued hashes are handed to ensure_completed_blobs_status", func=outer.fi.qualname, key="C18-D7/DEP|recover_streams|ensure")
+    for c in en:
+        R.exact_gate(ctx, "C18-D7/GATE", outer, c, "to_check", "…whenever there are any", key="C18-D7/GATE|recover_streams|ensure")
+        rec = outer.calls(dotted_name="self.storage.recover_streams")
+        ok = bool(rec) and all(outer.path(outer.cfg_nodes(c), outer.cfg_nodes(r), include_exc=False) is None for r in rec)
+        ctx.ob("C18-D7/ORDER", ok, outer.site(c), "the status check runs AFTER the rows were re-created (storage.recover_streams resets them to pending)", func=outer.fi.qualname,
+               key="C18-D7/ORDER|recover_streams")
 
 
 def exact(ctx, prog):
